@@ -189,6 +189,8 @@ Inductive ev :=
 | Q (m : msg) | StartSending | StopSending | Resp (r : rsp)
 | RecvErr    (* the server ends the RPC with an error status *)
 | SendErr    (* the next Send on the stream fails *)
+| Eof        (* the server ends the RPC with status OK (nothing arrives afterwards): the receiver reads io.EOF and
+                leaves; no error is recorded, nothing is completed - what is pending stays pending *)
 | Await.     (* AwaitConverged; does not change the state *)
 
 Definition step (c : cfg) (s : st) (e : ev) : st :=
@@ -205,6 +207,7 @@ Definition step (c : cfg) (s : st) (e : ev) : st :=
   | SendErr =>
       mkst (sendq s) (pend s) (pend_elec s) (pend_params s) (results s) (send_errs s) (read_errs s)
            (sending s) (sender_alive s) (recv_alive s) (stream_dead s) true
+  | Eof => s
   | Await => s
   end.
 
